@@ -69,7 +69,7 @@ static Str case_string(Ctx& c, uint64_t idx, const char** gen) {
     case 0: *gen = "walk"; return gwalk(r, r.chance(1, 50) ? 2000 : 60, false);
     case 1: *gen = "walk-complete"; return gwalk(r, r.chance(1, 50) ? 2000 : 60, true);
     case 2: *gen = "walk-mutated"; return mutate(r, gwalk(r, 60, true), r.range(1, 3));
-    case 3: case 4: *gen = "uri"; return gen_uri(r);
+    case 3: case 4: { *gen = "uri"; UriGenOpts o; o.huge = true; return gen_uri(r, o); }
     case 5: *gen = "uri-mutated"; return mutate(r, gen_uri(r), r.range(1, 3));
     case 6: { *gen = "uri-dots"; UriGenOpts o; o.dotHeavy = true; return gen_uri(r, o); }
     default: { *gen = "iplit"; Str h = r.coin() ? gen_ip6(r) : mutate(r, gen_ip6(r), 1); return Str(r.coin() ? "//[" : "s://u@[") + h + (r.chance(7, 8) ? "]" : "") + (r.coin() ? "/p" : ""); }
